@@ -26,7 +26,7 @@ RULE = ("payload trees (nesting <= 6) holding class-tagged dicts at any depth: t
         "encoded bytes); non-trivial = the payload contains at least one class-tagged dict")
 ASSUMPTIONS = ["CPython audit events cover import/exec/open/socket/subprocess/ctypes side effects", "marshal byte-level fuzz excluded (quantifier is over payload trees)",
                "converters registered by the harness itself are exempt, as the statement says"]
-REQUIRED_REACH = ["decoded_ok", "rejected", "must_raise_checked", "audit_allowed_events", "exceptions_built", "pyro_objects_built", "mutants_decoded", "converter_exemption_checked", "near_miss_tags_checked"]
+REQUIRED_REACH = ["decoded_ok", "rejected", "must_raise_checked", "audit_allowed_events", "exceptions_built", "pyro_objects_built", "mutants_decoded", "converter_exemption_checked", "near_miss_tags_checked", "decodes_from_memoryview", "decodes_from_bytearray"]
 SHARD_TIMEOUT = {"quick": 220, "thorough": 2400}
 
 SAFE_TAGS = ["Pyro5.core.URI", "Pyro5.client.Proxy", "Pyro5.server.Daemon", "Pyro5.util.SerpentSerializer", "Pyro5.util.MarshalSerializer",
@@ -259,8 +259,17 @@ class Monitor:
             bad.append("%s.%s" % (t.__module__, t.__qualname__))
 
 
-def run_decode(env, sername, data, call, must_raise, rec, payload):
+BUFFERS = {"bytes": bytes, "bytearray": bytearray, "memoryview": lambda d: memoryview(bytes(d))}
+
+
+def run_decode(env, sername, data, call, must_raise, rec, payload, buf="bytes"):
+    """buf: the buffer type the decoder is handed; the wire layer hands over bytes (plain messages, decompressed messages) or a memoryview
+    into the receive buffer (messages that carry annotations)"""
     P, mon = env
+    if payload is not None and len(payload) == 5:
+        payload = tuple(payload) + (buf,)
+    data = BUFFERS[buf](data)
+    rec.count("decodes_from_" + buf)
     ser = P.serializers.serializers[sername]
     bait_loaded_before = "checks.c04_bait" in sys.modules
     mods_before = set(sys.modules)
@@ -441,12 +450,15 @@ def run_shard(shard, rec):
         payload = ("tree", sername, call, data, must_raise)
         rec.case(("t", sername, call, core.h64(data)), nontrivial=ntags > 0,
                  sample={"serializer": sername, "path": "loadsCall" if call else "loads", "tree": core.short(tree, 300), "must_raise": must_raise} if j % 400 == 5 else None)
-        run_decode(env, sername, data, call, must_raise, rec, payload)
+        run_decode(env, sername, data, call, must_raise, rec, payload, buf="bytes" if (j // 4) % 4 else "bytearray")
+        if ntags > 0 or j % 5 == 0:
+            rec.case(("t-mv", sername, call, core.h64(data)), nontrivial=ntags > 0)
+            run_decode(env, sername, data, call, must_raise, rec, payload, buf="memoryview")
         if sername != "marshal" and j % 3 == 0:
             m = mutate_bytes(r, data)
             rec.case(("m", sername, call, core.h64(m)), nontrivial=True)
             rec.count("mutants_decoded")
-            run_decode(env, sername, m, call, False, rec, ("tree", sername, call, m, False))
+            run_decode(env, sername, m, call, False, rec, ("tree", sername, call, m, False), buf=("bytes", "memoryview")[(j // 3) % 2])
     # the converter registry is the only sanctioned extension point
     SB = P.serializers.SerializerBase
     calls = []
@@ -480,6 +492,7 @@ def run_shard(shard, rec):
                                 continue
                             rec.case(("near", tag, name, call, flagged, len(tree)), nontrivial=True)
                             run_decode(env, name, data, call, True, rec, ("tree", name, call, data, True))
+                            run_decode(env, name, data, call, True, rec, ("tree", name, call, data, True), buf="memoryview")
                             if len(calls) != before:
                                 rec.violation("converter-called-for-unregistered-tag", "%s.%s: the converter registered for 'c04.Registered' was called for the tag %r" % (
                                     name, "loadsCall" if call else "loads", calls[-1]), ("tree", name, call, data, True))
@@ -497,8 +510,9 @@ def run_shard(shard, rec):
 
 def replay(payload, rec):
     env = setup()
-    _, sername, call, data, must_raise = payload
+    _, sername, call, data, must_raise = payload[:5]
+    buf = payload[5] if len(payload) > 5 else "bytes"
     rec.case(("replay", sername, call, core.h64(data)))
     ser = env[0].serializers.serializers[sername]
     print("replay: %s %s of %r (must_raise=%s)" % (sername, "loadsCall" if call else "loads", data[:300], must_raise))
-    run_decode(env, sername, data, call, must_raise, rec, payload)
+    run_decode(env, sername, data, call, must_raise, rec, payload, buf=buf)
